@@ -118,3 +118,13 @@ def name_token_ordinals(src):
             order[t.start] = i
             i += 1
     return order
+
+
+def name_token_strings(src):
+    """the NAME / `*` token strings in order: two layouts of one program must agree on this sequence for NAME-token
+    ordinals to identify bindings across them (ast.unparse may reorder call arguments: f(k=1, *x) -> f(*x, k=1))"""
+    out = []
+    for t in tokenize.generate_tokens(io.StringIO(src).readline):
+        if t.type == tokenize.NAME or (t.type == tokenize.OP and t.string == '*'):
+            out.append(t.string)
+    return out
